@@ -156,7 +156,7 @@ def gen_variant(rng, case, vid, inc, extents):
             if rng.random() < 0.4:
                 ext = extents.get(i) or {}
                 if ext.get("calls"):
-                    faulted[str(i)] = {"kind": rng.choice(["trace", "trace", "mem"]),
+                    faulted[str(i)] = {"kind": rng.choice(["trace", "trace", "mem", "intr"]),
                                        "at": rng.randint(1, ext["calls"]),
                                        "gran": "call"}
     inplace = [i for i in range(n) if rng.random() < 0.15 and not varfea_anchor_gap(case, case["steps"][i])
